@@ -580,3 +580,75 @@ def run_chunks(ctx, modname, payloads, processes=8):
             if n not in ctx.notes:
                 ctx.notes.append(n)
     ctx.cov['distinct_nontrivial'] = len(ctx._distinct)
+
+
+# ------------------------------------------------------------------ in-place edits of an already encoded message
+def _grp_sites(entries, seg, path):
+    """every group instance reachable in `seg`: (path of (tag, index) steps, sub entries, instance)"""
+    out = []
+    for t, v in seg:
+        if v[0] != 'grp':
+            continue
+        e = find_entry(entries, t)
+        if e is None:
+            continue
+        for i, inst in enumerate(v[1]):
+            p = path + [(t, i)]
+            out.append((p, e[3], inst))
+            out += _grp_sites(e[3], inst, p)
+    return out
+
+
+def edit_in_place(rng, built, d, m, msg):
+    """Change one primitive field of one (possibly nested) group instance of the REAL message object `msg` in place —
+    `msg.Body[tag][i]…[tag2] = value`, no assignment on any enclosing object — and return the abstract message that `msg` now
+    holds (None when the message has no group instance with a primitive field).  The object has typically been encoded before:
+    anything remembered from that encoding must not survive the edit."""
+    import copy
+    segs = [('hdr', 'Header', d['hdr']), ('body', 'Body', d['body']), ('trl', 'Trailer', d['trl'])]
+    sites = []
+    for key, attr, entries in segs:
+        for p, sub, inst in _grp_sites(entries, m[key], []):
+            prim = [(j, t, v) for j, (t, v) in enumerate(inst) if v[0] != 'grp' and find_entry(sub, t) is not None]
+            if prim:
+                sites.append((key, attr, p, sub, prim))
+    if not sites:
+        return None
+    key, attr, path, sub, prim = rng.choice(sites)
+    j, t, old = rng.choice(prim)
+    e = find_entry(sub, t)
+    new = gen_prim(rng, e[2])
+    for _ in range(5):
+        if new != old:
+            break
+        new = gen_prim(rng, e[2])
+    m2 = copy.deepcopy(m)
+    obj = getattr(msg, attr)
+    seg = m2[key]
+    for (gt, i) in path:
+        obj = obj[gt][i]
+        k = next(k for k, (tt, _) in enumerate(seg) if tt == gt)
+        seg = seg[k][1][1][i]
+    obj[t] = py_value(new, built, False)
+    seg[j] = (t, new)
+    return m2
+
+
+def apply_difference(built, d, before, after, msg):
+    """replay of `edit_in_place`: find the one primitive that differs between two abstract messages and assign it in place on `msg`"""
+    def walk(entries, sb, sa, obj):
+        for (t, vb), (t2, va) in zip(sb, sa):
+            if vb == va:
+                continue
+            if vb[0] == 'grp':
+                e = find_entry(entries, t)
+                for i, (ib, ia) in enumerate(zip(vb[1], va[1])):
+                    if ib != ia:
+                        return walk(e[3], ib, ia, obj[t][i])
+            obj[t] = py_value(va, built, False)
+            return True
+        return False
+    for key, attr, entries in [('hdr', 'Header', d['hdr']), ('body', 'Body', d['body']), ('trl', 'Trailer', d['trl'])]:
+        if walk(entries, before[key], after[key], getattr(msg, attr)):
+            return True
+    return False
